@@ -60,21 +60,21 @@ type pending struct {
 }
 
 type thread struct {
-	id       int
-	name     string
-	wake     chan struct{}
-	pend     pending
-	done     bool
-	aborted  bool
-	panicked bool
-	panicVal any
-	panicStr string
-	rtErr    bool
-	stack    string
-	vc       [MaxThreads]uint32
-	heldGlob int // number of package-level mutexes currently held
-	library  bool
-	spawnedAt int // index of the transition that spawned this thread (-1: initial thread)
+	id        int
+	name      string
+	wake      chan struct{}
+	pend      pending
+	done      bool
+	aborted   bool
+	panicked  bool
+	panicVal  any
+	panicStr  string
+	rtErr     bool
+	stack     string
+	vc        [MaxThreads]uint32
+	heldGlob  int // number of package-level mutexes currently held
+	library   bool
+	spawnedAt int          // index of the transition that spawned this thread (-1: initial thread)
 	selReady  func() []int // pending select: the ready clauses
 	selChoice int          // which of the ready clauses the scheduler picked
 }
@@ -150,33 +150,33 @@ type Config struct {
 }
 
 type sched struct {
-	cfg      Config
-	threads  []*thread
-	cur      *thread
-	prefix   []int
-	choices  []int
-	points   []Point
-	aborting bool
-	doneCh   chan struct{}
-	ackCh    chan struct{}
-	deadlock bool
-	clock    int64
-	steps    int
-	chans    map[uintptr]*chanState
-	atomics  map[unsafe.Pointer]*atomicState
-	shadow   map[uintptrKey]*shadowCell
-	races    []Race
-	raceSeen map[string]bool
+	cfg           Config
+	threads       []*thread
+	cur           *thread
+	prefix        []int
+	choices       []int
+	points        []Point
+	aborting      bool
+	doneCh        chan struct{}
+	ackCh         chan struct{}
+	deadlock      bool
+	clock         int64
+	steps         int
+	chans         map[uintptr]*chanState
+	atomics       map[unsafe.Pointer]*atomicState
+	shadow        map[uintptrKey]*shadowCell
+	races         []Race
+	raceSeen      map[string]bool
 	elisionBroken bool
-	events   []string
-	machErr  string
-	sleep    map[int]bool
-	trans    []Trans
-	usedSelect bool
-	diverged   bool
-	epoch      int64
-	lastOp   pending // the operation granted to the thread that ran last
-	blocked  bool
+	events        []string
+	machErr       string
+	sleep         map[int]bool
+	trans         []Trans
+	usedSelect    bool
+	diverged      bool
+	epoch         int64
+	lastOp        pending // the operation granted to the thread that ran last
+	blocked       bool
 }
 
 var epochCounter int64
